@@ -6,6 +6,25 @@ export GOFLAGS=-mod=mod GOPROXY=off GOSUMDB=off GOTOOLCHAIN=local
 if grep -rn --include='*.v' -E '\b(Admitted|admit|Axiom|Parameter|Conjecture)\b|Unset Guard|bypass_check|type-in-type' coq | grep -v '^coq/Gen/' ; then
   echo "setup: forbidden construct in the development"; exit 1
 fi
+# Variable / Hypothesis / Context only inside sections (outside one each would declare an axiom)
+python3 - <<'PY' || { echo "setup: Variable / Hypothesis outside a section"; exit 1; }
+import re, glob, sys
+bad = []
+for f in glob.glob('coq/**/*.v', recursive=True):
+    if '/Gen/' in f or '/Run/' in f:
+        continue
+    depth, comment = 0, 0
+    for i, l in enumerate(open(f)):
+        t = l.strip()
+        opens, closes = t.count('(*'), t.count('*)')
+        if comment == 0 and not t.startswith('(*'):
+            if re.match(r'Section\s+\w+\s*\.', t): depth += 1
+            elif re.match(r'End\s+\w+\s*\.', t) and depth > 0: depth -= 1
+            elif re.match(r'(Variable|Variables|Hypothesis|Hypotheses|Context)\b', t) and depth == 0: bad.append((f, i + 1, t[:70]))
+        comment = max(0, comment + opens - closes)
+for b in bad: print(b)
+sys.exit(1 if bad else 0)
+PY
 mkdir -p tools/bin run evidence
 (cd tools/translate && go build -o ../bin/translate .)
 ./tools/bin/translate -repo "${VERIF_REPO:-/repo}" -out "$(pwd)"
